@@ -312,6 +312,16 @@ def apply_letter(W, L):
                 new, vals = pf.funceval(np.tanh, a), np.tanh(va)
             elif kind == 'neg':
                 new, vals = -a, -va
+            elif kind == 'radd0':            # the identities people write without thinking: 0 + x, sum([x]), 1 * x, x + 0, x / 1
+                new, vals = 0 + a, va.copy()
+            elif kind == 'sum1':
+                new, vals = sum([a]), va.copy()
+            elif kind == 'rmul1':
+                new, vals = 1 * a, va.copy()
+            elif kind == 'add0':
+                new, vals = a + 0.0, va.copy()
+            elif kind == 'div1':
+                new, vals = a / 1, va.copy()
         W.nrec += 1
         W.recs[W.nrec] = copy.deepcopy(W.recs[W.mod[i]['rec']])
         W.add_var(vals, W.nrec, new, slot)
@@ -421,7 +431,7 @@ def random_letter(rng, W, allow_share=True):
     if r < 0.71:
         return ('copy', i, slot)
     if r < 0.78:
-        return ('arith', str(rng.choice(['add', 'mulscalar', 'rsub', 'funceval', 'neg'])), i, int(rng.integers(0, nv)), slot)
+        return ('arith', str(rng.choice(['add', 'mulscalar', 'rsub', 'funceval', 'neg', 'radd0', 'sum1', 'rmul1', 'add0', 'div1'])), i, int(rng.integers(0, nv)), slot)
     if r < 0.83 and allow_share:
         if slot == i:
             slot = (i + 1) % 3
@@ -440,7 +450,7 @@ def reduced_alphabet(g, cls):
     k0 = g.nd - 1
     A = [('bc', 0, 'left', 'c', 'assign', 0.7), ('bc', 0, 'right', 'a', 'elem', 0.4), ('util', 0, 'right', 'fixedValue', (1.5,)),
          ('util', 0, 'left', 'newtonCooling', (1.0, 2.0, 0.5, True)), ('value', 0, 'scalar', 0.3), ('value', 0, 'slice', 2.0), ('value', 0, 'iadd', 1.0),
-         ('copy', 0, 1), ('share', 0, 1, np.full(g.dims, 0.25)), ('arith', 'mulscalar', 0, 0, 1), ('apply', 0), ('solve', 0), ('explicit', 0),
+         ('copy', 0, 1), ('share', 0, 1, np.full(g.dims, 0.25)), ('arith', 'mulscalar', 0, 0, 1), ('arith', 'radd0', 0, 0, 1), ('apply', 0), ('solve', 0), ('explicit', 0),
          ('update_value', 0, 1), ('bc', 1, 'left', 'c', 'assign', -0.6), ('solve', 1), ('explicit-keep', 0, 1)]
     if AXKIND[cls][k0] in ('len', 'ang'):
         A.append(('periodic', 0, [SIDES[k0][0]], True))
@@ -455,6 +465,26 @@ def valid(L, nv):
     if L[0] == 'update_value':
         idx.append(L[2])
     return all(i < nv for i in idx)
+
+
+def scale_letter(L, K):
+    """the same letter in a field unit K times smaller/larger: everything that carries the dimension of the field is rescaled"""
+    if L[0] == 'bc' and L[3] == 'c' and L[4] != 'iop':
+        return L[:5] + (np.asarray(L[5]) * K if not np.isscalar(L[5]) else L[5] * K,)
+    if L[0] == 'util':
+        w, p_ = L[3], L[4]
+        if w == 'fixedValue':
+            return L[:4] + ((p_[0] * K,) + tuple(p_[1:]),)
+        if w == 'fixedGradient':
+            return L[:4] + ((p_[0] * K,) + tuple(p_[1:]),)
+        if w == 'newtonCooling':
+            return L[:4] + ((p_[0], p_[1], p_[2] * K, p_[3]),)
+        return L
+    if L[0] == 'value' and L[2] != 'imul':
+        return L[:3] + (np.asarray(L[3]) * K if not np.isscalar(L[3]) else L[3] * K,)
+    if L[0] == 'share':
+        return L[:3] + (np.asarray(L[3]) * K,)
+    return L
 
 
 def first_variable(m, g, init, form):
@@ -545,12 +575,18 @@ def run_case(case):
                 slot = L[-1] if L[0] != 'share' else L[2]
                 if slot >= nlive:
                     nlive += 1
+    if case.get('kunit'):
+        # the whole history in nano (or mega) field units: every number with the dimension of the field is rescaled
+        Ku = float(10 ** (rng.uniform(-12, -8) if rng.random() < 0.7 else rng.uniform(6, 9)))
+        coef['init'] = coef['init'] * Ku
+        coef['gamma'] = coef['gamma'] * Ku
+        letters = [scale_letter(L, Ku) for L in letters]
     init_form = case.get('init_form', 'interior')
     if init_form.endswith('-int'):
         coef['init'] = np.round(coef['init'] * 3.0)          # whole numbers, so that the integer-typed forms hold the same values
     fail, W, done = run_history(cls, faces, coef, letters, init_form=init_form)
     names = [abstract(L) for L in done]
-    cov = {'init_form:' + init_form: 1, 'histories:%s' % case['kind']: 1, 'letters': len(done), 'visible_state_checks': W.events, 'solve_comparisons': W.solves, 'cls:' + cls: 1}
+    cov = {'init_form:' + init_form: 1, 'field_unit:%s' % ('scaled' if case.get('kunit') else '1'): 1, 'histories:%s' % case['kind']: 1, 'letters': len(done), 'visible_state_checks': W.events, 'solve_comparisons': W.solves, 'cls:' + cls: 1}
     for nme in set(names):
         cov['letter:' + nme.split('.')[0]] = 1
     key = '%s/%s/%s' % (cls, [len(f) - 1 for f in faces], '>'.join(names))
@@ -593,10 +629,10 @@ def plan(tier, seed):
     step = 150
     for j in range(0, len(cases), step):
         chunks.append(cases[j:j + step])
-    per = 25 if tier == 'quick' else 1200
+    per = 60 if tier == 'quick' else 1500
     for ci, cls in enumerate(CLASSES):
         rc = [{'kind': 'random', 'cls': cls, 'seed': [seed, 9, 100 + ci, i],
-               'init_form': ['interior', 'with-ghosts', 'interior', 'with-ghosts-int', 'interior-int'][i % 5]} for i in range(per)]
+               'init_form': ['interior', 'with-ghosts', 'interior', 'with-ghosts-int', 'interior-int'][i % 5], 'kunit': i % 3 == 2} for i in range(per)]
         st = 25 if NDIM[cls] < 3 else 13
         for j in range(0, len(rc), st):
             chunks.append(rc[j:j + st])
@@ -611,6 +647,8 @@ def floors(agg, tier):
     for k, need in (('histories:exhaustive', 3000), ('histories:random', 200), ('solve_comparisons', 5000), ('visible_state_checks', 10000)):
         if agg['cov'].get(k, 0) < need:
             out.append('%s < %d' % (k, need))
+    if agg['cov'].get('field_unit:scaled', 0) < 40:
+        out.append('field_unit:scaled < 40')
     for fm in ('interior', 'with-ghosts', 'with-ghosts-int', 'interior-int'):
         if agg['cov'].get('init_form:' + fm, 0) < 20:
             out.append('init_form:%s < 20' % fm)
